@@ -99,12 +99,24 @@ func cmdCheck(mode string, args []string) int {
 				retry = append(retry, ob)
 			}
 		}
-		if len(retry) > 0 && len(retry) <= 24 && mode != "baseline" {
+		if len(retry) > 0 && len(retry) <= 24 {
+			// first a case split on the last append (in place / reallocated), which is where
+			// solvers most often get lost; then the plain retry with a larger budget
+			var rest []*Obligation
 			for _, ob := range retry {
+				if splitOnAppend(ob, cf, dir, keep) {
+					ob.Retried = true
+					continue
+				}
+				rest = append(rest, ob)
+			}
+			for _, ob := range rest {
 				ob.Result, ob.Output, ob.Solver = "", "", ""
 				ob.Retried = true
 			}
-			solveAll(retry, solveOpts{TimeoutS: cf.timeout * 3, Workers: cf.workers, Dir: dir, Keep: keep, Only: cf.only, Models: true})
+			if len(rest) > 0 {
+				solveAll(rest, solveOpts{TimeoutS: cf.timeout * 3, Workers: cf.workers, Dir: dir, Keep: keep, Only: cf.only, Models: true})
+			}
 		}
 	}
 	var kf KnownFile
@@ -384,4 +396,35 @@ func openList(cf *checkFlags, prop string) []string {
 	out := append([]string{}, bl.Open[prop]...)
 	sort.Strings(out)
 	return out
+}
+
+// splitOnAppend proves an obligation by cases on the condition of the last append before it
+// (the appended elements fit in place / a new array is allocated). Both cases must be unsat.
+func splitOnAppend(ob *Obligation, cf *checkFlags, dir string, keep bool) bool {
+	if ob.vc == nil || ob.cached != "" {
+		return false
+	}
+	var cond *Term
+	for i := 0; i < ob.Index && i < len(ob.vc.Items); i++ {
+		it := &ob.vc.Items[i]
+		if it.Kind == itDef && it.Sort == SBool && strings.HasPrefix(it.Name, "app_fits") {
+			cond = Sym(it.Name, SBool)
+		}
+	}
+	if cond == nil {
+		return false
+	}
+	a, b := *ob, *ob
+	a.Name, b.Name = ob.Name+"~inplace", ob.Name+"~grown"
+	a.ExtraAssume, b.ExtraAssume = cond, Not(cond)
+	a.Result, a.Output, a.Solver, b.Result, b.Output, b.Solver = "", "", "", "", "", ""
+	solveAll([]*Obligation{&a, &b}, solveOpts{TimeoutS: cf.timeout, Workers: 2, Dir: dir, Keep: keep, Only: cf.only, Models: false})
+	if a.Result == "unsat" && b.Result == "unsat" {
+		ob.Result = "unsat"
+		ob.Solver = "split(" + cond.Name + "):" + a.Solver + "+" + b.Solver
+		ob.Seconds = a.Seconds + b.Seconds
+		ob.Output = "proved by cases on " + cond.Name
+		return true
+	}
+	return false
 }
